@@ -75,4 +75,5 @@ Definition ok (c : case) : bool :=
 
 Definition corr := UM.corr.
 Definition bad_ok (cs : list case) : list N := bad_idx ok cs.
-Definition bad_corr (cs : list case) : list N := bad_idx corr cs.
+(* the correspondence of a run: model = observed, and the source as translated in this run = model *)
+Definition bad_corr (cs : list case) : list N := bad_idx (fun c => corr c && UM.src_agrees c) cs.
